@@ -97,7 +97,7 @@ class VCSAPI:
             logger.info(cmd_str)
         else:
             logger.debug(cmd_str)
-        cmd_parts = shlex.split(cmd_str)
+        cmd_parts = [part.format(**kwargs) for part in shlex.split(cmd_tmpl)]
         output_data: bytes = sp.check_output(cmd_parts, env=env, stderr=sp.PIPE)
 
         return output_data.decode("utf-8")
